@@ -40,7 +40,11 @@ func Arithm(cfg *Config, expr syntax.ArithmExpr) (int, error) {
 	case *syntax.UnaryArithm:
 		switch expr.Op {
 		case syntax.Inc, syntax.Dec:
-			name := expr.X.(*syntax.Word).Lit()
+			name := nodeLit(expr.X)
+			if name == "" {
+				// e.g. a[1]++ (indexed l-values are not supported yet) or ++x++
+				return 0, fmt.Errorf("unsupported assignment target in %q", expr.Op)
+			}
 			old := atoi(cfg.envGet(name))
 			val := old
 			if expr.Op == syntax.Inc {
@@ -207,7 +211,11 @@ func atoiLargeBase(s string, base int64) int64 {
 }
 
 func (cfg *Config) assgnArit(b *syntax.BinaryArithm) (int, error) {
-	name := b.X.(*syntax.Word).Lit()
+	name := nodeLit(b.X)
+	if name == "" {
+		// e.g. a[1]=2: indexed l-values are not supported yet
+		return 0, fmt.Errorf("unsupported assignment target in %q", b.Op)
+	}
 	val := atoi(cfg.envGet(name))
 	arg_, err := Arithm(cfg, b.Y)
 	if err != nil {
